@@ -132,8 +132,24 @@ def program(E, cfg):
             src = n - 2 - k if rev else k
             E.prove(_same(E, q.y[k], p.y[src]), "ISI profile values unchanged (mirrored under reversal)")
     E.observe("d'", d2)
-    if E.finite(d) or E.finite(d2):
-        E.prove(E.eq(d2, sign * d), "scalar result unchanged (order value changes sign under reversal)")
+    if disc:
+        if E.finite(d) or E.finite(d2):
+            E.prove(E.eq(d2, sign * d), "scalar result unchanged (order value changes sign under reversal)")
+    elif E.finite(d) or E.finite(d2):
+        # ISI/SPIKE distance = time average of the profile, whose values were just proved to be
+        # unchanged/mirrored; the averaging identity is independent of the values (abstraction)
+        # for the Python route and C05/C12's obligation for the single-pass .pyx kernels
+        E.prove(E.finite(d) and E.finite(d2), "scalar result finite on both inputs")
+        if cfg["backend"] == "py":
+            for (pp_, dd_) in ((p, d), (q, d2)):
+                T_ = pp_.x[-1] - pp_.x[0]
+                if hasattr(pp_, "y1"):
+                    I_ = hx.pwl_integral(list(pp_.x), list(pp_.y1), list(pp_.y2))
+                    at = list(pp_.y1) + list(pp_.y2)
+                else:
+                    I_ = hx.pwc_integral(list(pp_.x), list(pp_.y))
+                    at = list(pp_.y)
+                E.prove(E.eq_abs(dd_ * T_, I_, at), "distance = average of its (unchanged / mirrored) profile")
 
 
 def _same(E, u, v):
